@@ -151,6 +151,41 @@ func Deep()        { run(2, false) }
 func DeepBulk()    { run(2, true) }
 func Mixed()       { run(3, true) }
 
+// Held: a membership proof handed out for version q stays valid while the log goes on
+// (it is serialised and verified after the query returned, while later insertions are
+// applied): query, add one or two more events, then verify against the snapshots the
+// proof names.
+func Held() {
+	N := rt.Param("N", 3)
+	n := 1 + rt.Choose("n", N)
+	pattern := []int{0, 1, 3}[rt.Choose("pattern", rt.Param("PATTERNS", 2))]
+	ds := gen(n+2, pattern)
+	l := models.NewLog(bits)
+	insert(l, ds[:n], false)
+	e := rt.Choose("e", n)
+	d := l.Digests[e]
+	mp, err := l.B.QueryDigestMembership(d)
+	rt.Assert(err == nil, "query-ok")
+	if err != nil {
+		return
+	}
+	mr := protocol.ToMembershipResult(nil, mp)
+	later := 1 + rt.Choose("later", rt.Param("LATER", 1))
+	if later == 2 && rt.Choose("later-bulk", 2) == 1 {
+		l.AddBulk(ds[n : n+2])
+	} else {
+		for k := 0; k < later; k++ {
+			l.Add(ds[n+k])
+		}
+	}
+	snap := &balloon.Snapshot{EventDigest: d, HistoryDigest: l.Snaps[n-1].HistoryDigest, HyperDigest: l.Snaps[n-1].HyperDigest, Version: uint64(n - 1)}
+	rt.Assert(mp.DigestVerify(d, snap), "held-proof-verifies-after-later-insertions")
+	// the wire form taken when the query returned
+	rt.Assert(protocol.ToBalloonProof(mr, rt.HasherF(bits)).DigestVerify(d, snap), "held-answer-verifies-after-later-insertions")
+	// and the wire form taken only now (a handler that serialises late)
+	rt.Assert(protocol.ToBalloonProof(protocol.ToMembershipResult(nil, mp), rt.HasherF(bits)).DigestVerify(d, snap), "late-serialised-answer-verifies")
+}
+
 // Dups: an event inserted twice is provable at every version from its latest insertion on.
 func Dups() {
 	N := rt.Param("N", 3)
